@@ -74,7 +74,7 @@ Lemma decode_spec b :
   | KSwap n => 144 <= b <= 159 /\ n = b - 143
   | KReturn => b = 243 | KRevert => b = 253 | KSha3 => b = 32
   | KEnv e => arith_of b = None /\ env_of b = Some e
-  | KRetDataSize => b = 61 | KRetDataCopy => b = 62
+  | KRetDataSize => b = 61 | KRetDataCopy => b = 62 | KCall => b = 241 | KStaticCall => b = 250
   | KOther => delta_alpha b = None
   end.
 Proof.
@@ -122,9 +122,12 @@ Definition MAXMEM : Z := 137438953440.      (* 0x1FFFFFFFE0, the largest size me
 Definition mem_rel (mem : list Z) (m : Z -> Z) (i : Z) : Prop :=
   zlen mem = 32 * i /\ zlen mem <= MAXMEM /\ (forall x, 0 <= cnth mem x < 256) /\ (forall x, m x = cnth mem x).
 
+(* the return-data buffer: a byte string no longer than the memory can be *)
+Definition rd_ok (o : list Z) : Prop := zlen o <= MAXMEM /\ forall x, 0 <= cnth o x < 256.
+
 Definition R (st : state) (y : ystate) : Prop :=
   s_pc st = y_pc y /\ 0 <= y_pc y /\ s_stk st = y_s y /\ Forall word (y_s y) /\
-  mem_rel (s_mem st) (y_m y) (y_i y).
+  mem_rel (s_mem st) (y_m y) (y_i y) /\ (s_rd st = y_o y /\ rd_ok (y_o y)).
 
 Definition expanded (mem : list Z) (msize : Z) : list Z := if 0 <? msize then mem_resize mem msize else mem.
 
@@ -204,6 +207,18 @@ Qed.
 Lemma calc_nonneg off l : 0 <= fst (calc_mem_size off l).
 Proof. unfold calc_mem_size. destruct (negb (l <? U64)); [cbn; lia|apply calc_u_nonneg]. Qed.
 
+Lemma call_mem_nonneg a b c0 d : 0 <= fst (call_mem_size a b c0 d).
+Proof.
+  unfold call_mem_size. pose proof (calc_nonneg a b). pose proof (calc_nonneg c0 d).
+  destruct (calc_mem_size a b) as [x ox]. destruct ox; [cbn; lia|].
+  destruct (calc_mem_size c0 d) as [y oy]. destruct oy; [cbn; lia|]. cbn [fst] in *. destruct (y <? x); lia.
+Qed.
+Lemma call_gas_bound mag av L fee n co p : call_gas mag av L fee n co = Some p -> n = 0 \/ n <= MAXMEM.
+Proof.
+  unfold call_gas. destruct (memory_gas_cost mag L fee n) as [[g l]|] eqn:Em; [|discriminate].
+  intros _. eapply mgc_bound; eassumption.
+Qed.
+
 Lemma tws_nonneg sz : 0 <= sz -> 0 <= to_word_size sz.
 Proof.
   intros. unfold to_word_size. destruct (MAXU64 - 31 <? sz); [vm_compute; discriminate|].
@@ -223,13 +238,14 @@ Section S.
       match type of H with
       | calc_mem_size_u ?a ?b = _ => pose proof (calc_u_nonneg a b) as Q
       | calc_mem_size ?a ?b = _ => pose proof (calc_nonneg a b) as Q
+      | call_mem_size ?a ?b ?c1 ?d = _ => pose proof (call_mem_nonneg a b c1 d) as Q
       end; rewrite H in Q; exact Q.
   Qed.
 
   Lemma dyn_bound k st ms p s x : mem_size_of k s = Some x -> dyn_gas_of P k st ms = Some (Some p) -> ms = 0 \/ ms <= MAXMEM.
   Proof.
     destruct k; cbn [mem_size_of dyn_gas_of]; try discriminate; intros _ H; injection H as H;
-      first [eapply mgc_bound; eassumption | eapply copier_bound; eassumption | eapply sha3_bound; eassumption].
+      first [eapply mgc_bound; eassumption | eapply copier_bound; eassumption | eapply sha3_bound; eassumption | eapply call_gas_bound; eassumption].
   Qed.
   Lemma dyn_none k st ms s x : mem_size_of k s = Some x -> dyn_gas_of P k st ms = None -> False.
   Proof. destruct k; cbn [mem_size_of dyn_gas_of]; discriminate. Qed.
@@ -242,7 +258,7 @@ Section S.
      r_max (znth (p_tab P) (cnth c (s_pc st)) no_row) < zlen (s_stk st) -> Q (Done (OFail EOverflow))) ->
     Q (Done (OFail EOOG)) -> Q (Done (OFail EGasOverflow)) ->
     (decode (cnth c (s_pc st)) = KOther -> Q (Done (OUnmodelled (cnth c (s_pc st))))) ->
-    (forall w fee' gas',
+    (forall w fee' gas' cgt',
        r_def (znth (p_tab P) (cnth c (s_pc st)) no_row) = true ->
        r_min (znth (p_tab P) (cnth c (s_pc st)) no_row) <= zlen (s_stk st) <= r_max (znth (p_tab P) (cnth c (s_pc st)) no_row) ->
        decode (cnth c (s_pc st)) <> KOther ->
@@ -252,7 +268,7 @@ Section S.
        | Some (sz, ovf) => ovf = false /\ w = to_word_size sz
        end ->
        Q (exec impl_op valid_jumpdest hash E c input (decode (cnth c (s_pc st))) (cnth c (s_pc st))
-            (mkState (s_pc st) (s_stk st) (expanded (s_mem st) (32 * w)) fee' gas' (s_maxh st)))) ->
+            (mkState (s_pc st) (s_stk st) (expanded (s_mem st) (32 * w)) fee' gas' (s_maxh st) (s_rd st) cgt' (s_bad st)))) ->
     Q (step impl_op valid_jumpdest hash E P c input st).
   Proof.
     intros H1 H2 H3 H4 H5 H6 H7. unfold step. cbv zeta.
@@ -271,7 +287,7 @@ Section S.
       + (* msize = 0 *)
         match goal with |- context [dyn_gas_of P ?k ?s ?m] => destruct (dyn_gas_of P k s m) as [[[g fee']|]|] eqn:Edyn end.
         * cbn [s_gas]. destruct (s_gas st - r_gas rw <? g); [apply H4|].
-          cbn -[exec]. specialize (H7 0 fee' (s_gas st - r_gas rw - g) eq_refl (conj H H0) Hne).
+          match goal with |- context [cgt_of P ?k0 ?s0 ?m0] => set (CG := cgt_of P k0 s0 m0) end. cbn -[exec]. specialize (H7 0 fee' (s_gas st - r_gas rw - g) CG eq_refl (conj H H0) Hne).
           try rewrite Em in H7; cbn beta iota in H7. apply H7; [lia|unfold MAXMEM; lia|split; [reflexivity|symmetry; exact Z0]].
         * apply H4.
         * exfalso. eapply dyn_none; eassumption.
@@ -280,23 +296,24 @@ Section S.
         match goal with |- context [dyn_gas_of P ?k ?s ?m] => destruct (dyn_gas_of P k s m) as [[[g fee']|]|] eqn:Edyn end.
         * cbn [s_gas]. destruct (s_gas st - r_gas rw <? g); [apply H4|].
           pose proof (dyn_bound _ _ _ _ _ _ Em Edyn) as Hb.
-          specialize (H7 (to_word_size sz) fee' (s_gas st - r_gas rw - g) eq_refl (conj H H0) Hne).
+          match goal with |- context [cgt_of P ?k0 ?s0 ?m0] => set (CG := cgt_of P k0 s0 m0) end. specialize (H7 (to_word_size sz) fee' (s_gas st - r_gas rw - g) CG eq_refl (conj H H0) Hne).
           try rewrite Em in H7; cbn beta iota in H7.
           assert (Q0 : Q (exec impl_op valid_jumpdest hash E c input (decode opc) opc
                  {| s_pc := s_pc st; s_stk := s_stk st; s_mem := expanded (s_mem st) (32 * to_word_size sz);
-                    s_fee := fee'; s_gas := s_gas st - r_gas rw - g; s_maxh := s_maxh st |}))
+                    s_fee := fee'; s_gas := s_gas st - r_gas rw - g; s_maxh := s_maxh st;
+                    s_rd := s_rd st; s_cgt := CG; s_bad := s_bad st |}))
             by (apply H7; [lia|lia|split; reflexivity]).
           unfold expanded in Q0. replace (32 * to_word_size sz) with (to_word_size sz * 32) in Q0 by lia.
-          cbn [s_pc s_stk s_mem s_fee s_gas s_maxh].
+          cbn [s_pc s_stk s_mem s_fee s_gas s_maxh s_rd s_cgt s_bad].
           destruct (0 <? to_word_size sz * 32); exact Q0.
         * apply H4.
         * exfalso. eapply dyn_none; eassumption.
     - match goal with |- context [dyn_gas_of P ?k ?s ?m] => destruct (dyn_gas_of P k s m) as [[[g fee']|]|] eqn:Edyn end.
       + cbn [s_gas]. destruct (s_gas st - r_gas rw <? g); [apply H4|].
-        specialize (H7 0 fee' (s_gas st - r_gas rw - g) eq_refl (conj H H0) Hne).
+        match goal with |- context [cgt_of P ?k0 ?s0 ?m0] => set (CG := cgt_of P k0 s0 m0) end. specialize (H7 0 fee' (s_gas st - r_gas rw - g) CG eq_refl (conj H H0) Hne).
         try rewrite Em in H7; cbn beta iota in H7. apply H7; [lia|unfold MAXMEM; lia|reflexivity].
       + apply H4.
-      + specialize (H7 0 (s_fee st) (s_gas st - r_gas rw) eq_refl (conj H H0) Hne).
+      + specialize (H7 0 (s_fee st) (s_gas st - r_gas rw) (s_cgt st) eq_refl (conj H H0) Hne).
         try rewrite Em in H7; cbn beta iota in H7. apply H7; [lia|unfold MAXMEM; lia|reflexivity].
   Qed.
 End S.
@@ -325,7 +342,8 @@ Proof. intros. unfold word. change W with (2 ^ 256). assert (2 ^ 64 < 2 ^ 256) b
 
 Ltac zl := unfold zlen, len in *; cbn [length] in *.
 Ltac pn := repeat match goal with H : word ?x |- _ => lazymatch goal with _ : 0 <= x |- _ => fail | _ => assert (0 <= x) by (destruct H; assumption) end end.
-Ltac finR := unfold R; cbn [s_pc s_stk s_mem y_pc y_s y_m y_i upd nth skipn]; split; [|split; [|split; [|split]]].
+Ltac finR := unfold R; cbn [s_pc s_stk s_mem s_rd y_pc y_s y_m y_i y_o upd upd_call nth skipn];
+  split; [|split; [|split; [|split; [|split; [|try (split; [reflexivity|assumption])]]]]].
 
 Lemma bigend_all_zero l : (forall b, In b l -> b = 0) -> bigend l = 0.
 Proof.
@@ -450,21 +468,21 @@ Qed.
 
 Lemma sem_push hash E Ib Id w y : 96 <= w <= 127 ->
   sem spec_op hash E Ib Id w y =
-  YNext (mkY (y_pc y + (w - 95) + 1) (bigend (mread (byte_at Ib) (y_pc y + 1) (w - 95)) :: y_s y) (y_m y) (y_i y)).
+  YNext (mkY (y_pc y + (w - 95) + 1) (bigend (mread (byte_at Ib) (y_pc y + 1) (w - 95)) :: y_s y) (y_m y) (y_i y) (y_o y)).
 Proof.
   intros H. unfold sem. destruct (range_arith_env w ltac:(lia)) as [-> ->]. noteq w.
   destruct (Z.leb_spec 96 w); [|lia]. destruct (Z.leb_spec w 127); [|lia]. reflexivity.
 Qed.
 Lemma sem_dup hash E Ib Id w y : 128 <= w <= 143 ->
   sem spec_op hash E Ib Id w y =
-  YNext (mkY (y_pc y + 1) (nth (Z.to_nat (w - 128)) (y_s y) 0 :: y_s y) (y_m y) (y_i y)).
+  YNext (mkY (y_pc y + 1) (nth (Z.to_nat (w - 128)) (y_s y) 0 :: y_s y) (y_m y) (y_i y) (y_o y)).
 Proof.
   intros H. unfold sem. destruct (range_arith_env w ltac:(lia)) as [-> ->]. noteq w.
   destruct (Z.leb_spec 96 w); [|lia]. destruct (Z.leb_spec w 127); [lia|]. cbn [andb].
   destruct (Z.leb_spec 128 w); [|lia]. destruct (Z.leb_spec w 143); [|lia]. reflexivity.
 Qed.
 Lemma sem_swap hash E Ib Id w y : 144 <= w <= 159 ->
-  sem spec_op hash E Ib Id w y = YNext (mkY (y_pc y + 1) (yswap (y_s y) (w - 143)) (y_m y) (y_i y)).
+  sem spec_op hash E Ib Id w y = YNext (mkY (y_pc y + 1) (yswap (y_s y) (w - 143)) (y_m y) (y_i y) (y_o y)).
 Proof.
   intros H. unfold sem. destruct (range_arith_env w ltac:(lia)) as [-> ->]. noteq w.
   destruct (Z.leb_spec 96 w); [|lia]. destruct (Z.leb_spec w 127); [lia|]. cbn [andb].
@@ -497,6 +515,78 @@ Proof.
     + intros k Hk. change (byte_at data) with (cnth data). apply Hb.
 Qed.
 
+Lemma zlist_eq_true a : forall b, zlist_eq a b = true -> a = b.
+Proof.
+  induction a as [|x a IH]; intros [|y b] H; cbn in H; try discriminate; [reflexivity|].
+  apply andb_true_iff in H as [H1 H2]. apply Z.eqb_eq in H1. subst. f_equal. apply IH. exact H2.
+Qed.
+
+Lemma ceil32_mono x y : x <= y -> ceil32 x <= ceil32 y.
+Proof. intros. unfold ceil32. apply Z.div_le_mono; lia. Qed.
+
+Lemma tws_small x : 0 <= x <= MAXMEM -> to_word_size x = ceil32 x.
+Proof.
+  intros H. unfold to_word_size, ceil32. destruct (Z.ltb_spec (MAXU64 - 31) x); [|reflexivity].
+  exfalso. unfold MAXMEM in H. change (MAXU64 - 31) with 18446744073709551584 in *. lia.
+Qed.
+
+Lemma call_mem_facts roff rsz ioff isz sz w yi :
+  0 <= roff -> 0 <= rsz -> 0 <= ioff -> 0 <= isz -> 0 <= yi ->
+  call_mem_size roff rsz ioff isz = (sz, false) -> w = to_word_size sz -> 32 * w <= MAXMEM ->
+  rsz < U64 /\ isz < U64 /\
+  (0 < rsz -> roff < U64 /\ roff + rsz <= 32 * w) /\ (0 < isz -> ioff < U64 /\ ioff + isz <= 32 * w) /\
+  Mx (Mx yi ioff isz) roff rsz = Z.max yi w.
+Proof.
+  intros Hro Hrs Hio His Hyi H Hw Hb. unfold call_mem_size in H.
+  pose proof (calc_nonneg roff rsz) as Nx. pose proof (calc_nonneg ioff isz) as Ny.
+  destruct (calc_mem_size roff rsz) as [x ox] eqn:Ex. destruct ox; [discriminate|].
+  destruct (calc_mem_size ioff isz) as [y oy] eqn:Ey. destruct oy; [discriminate|].
+  cbn [fst] in Nx, Ny. injection H as Hsz.
+  assert (Hmax : sz = Z.max x y) by (destruct (Z.ltb_spec y x); lia).
+  assert (Hsz0 : 0 <= sz) by lia.
+  destruct (tws_ceil sz w Hsz0 Hw Hb) as [Hwc Hle].
+  assert (Hx : x <= MAXMEM) by lia. assert (Hy : y <= MAXMEM) by lia.
+  assert (Hwx : 32 * to_word_size x <= MAXMEM).
+  { rewrite tws_small by lia. pose proof (ceil32_mono x sz ltac:(lia)). lia. }
+  assert (Hwy : 32 * to_word_size y <= MAXMEM).
+  { rewrite tws_small by lia. pose proof (ceil32_mono y sz ltac:(lia)). lia. }
+  destruct (calc_facts roff rsz x (to_word_size x) Hro Hrs Ex eq_refl Hwx) as [A1 [A2 A3]].
+  destruct (calc_facts ioff isz y (to_word_size y) Hio His Ey eq_refl Hwy) as [B1 [B2 B3]].
+  assert (Hwmax : w = Z.max (to_word_size x) (to_word_size y)).
+  { rewrite !tws_small by lia. rewrite Hwc, Hmax.
+    destruct (Z.le_ge_cases x y) as [Q|Q]; pose proof (ceil32_mono _ _ Q); [rewrite Z.max_r by lia|rewrite Z.max_l by lia]; lia. }
+  split; [assumption|]. split; [assumption|]. split; [|split].
+  - intros Q. destruct (A3 Q) as [C1 [C2 _]]. split; [assumption|lia].
+  - intros Q. destruct (B3 Q) as [C1 [C2 _]]. split; [assumption|lia].
+  - rewrite (Mx_eq yi ioff isz (to_word_size y)) by (try assumption; intros Q; apply B3; exact Q).
+    rewrite (Mx_eq (Z.max yi (to_word_size y)) roff rsz (to_word_size x)) by (try assumption; try lia; intros Q; apply A3; exact Q).
+    lia.
+Qed.
+
+Lemma firstn_seq' k : forall a n, firstn k (seq a n) = seq a (Nat.min k n).
+Proof. induction k as [|k IH]; intros a [|n]; cbn; try reflexivity. f_equal. apply IH. Qed.
+
+Lemma firstn_mread m a n k : 0 <= k -> 0 <= n -> firstn (Z.to_nat k) (mread m a n) = mread m a (Z.min k n).
+Proof.
+  intros Hk Hn. unfold mread. rewrite firstn_map. f_equal. rewrite firstn_seq'. f_equal. lia.
+Qed.
+
+Lemma mem_set_short m off size v : 0 <= off -> off <= zlen m -> 0 < size ->
+  mem_set m off size v = mem_set m off (Z.min size (zlen v)) (firstn (Z.to_nat size) v).
+Proof.
+  intros Ho Hol Hs. unfold mem_set at 1. destruct (Z.eqb_spec size 0); [lia|]. cbv zeta.
+  pose proof (zlen_nonneg v) as Hv.
+  destruct (Z.eqb_spec (Z.min size (zlen v)) 0) as [E0|E0].
+  - assert (zlen v = 0) by lia. assert (v = []) by (destruct v; [reflexivity|unfold zlen in *; cbn in *; lia]). subst v.
+    unfold mem_set. rewrite E0. cbn [Z.eqb]. rewrite firstn_nil. cbn [app length]. rewrite Nat.add_0_r. apply firstn_skipn.
+  - unfold mem_set. destruct (Z.eqb_spec (Z.min size (zlen v)) 0); [lia|]. cbv zeta.
+    rewrite firstn_firstn. replace (Init.Nat.min (Z.to_nat (Z.min size (zlen v))) (Z.to_nat size)) with (Z.to_nat (Z.min size (zlen v))) by lia.
+    assert (Ef : firstn (Z.to_nat (Z.min size (zlen v))) v = firstn (Z.to_nat size) v).
+    { destruct (Z.le_ge_cases size (zlen v)); [rewrite Z.min_l by lia; reflexivity|].
+      rewrite Z.min_r by lia. rewrite !firstn_all2 by (unfold zlen in *; lia). reflexivity. }
+    rewrite Ef. reflexivity.
+Qed.
+
 Section Sim.
   Variable defined : Z -> bool.
   Variable hash : list Z -> Z.
@@ -515,8 +605,13 @@ Section Sim.
   Notation ystep' := (ystep spec_op defined hash E c input).
   Notation istep := (step impl_op valid_jumpdest hash E P c input).
 
+  (* excluded: the Yellow-Paper machine met an instruction outside its set, or the ghost monitor fired (a call to the
+     identity precompile ran out of callee gas -- not expressible without gas -- or left return data different from
+     its input: known finding C10/returndata:identity-in-out-overlap) *)
+  Definition Excl (y : ystate) (res : stepres) : Prop :=
+    (exists w, ystep' y = YOutside w) \/ (exists st', res = Next st' /\ s_bad st' = true).
   Definition Qsim (y : ystate) (res : stepres) : Prop :=
-    (exists w, ystep' y = YOutside w) \/
+    Excl y res \/
     match res with
     | Next st' => exists y', ystep' y = YNext y' /\ R st' y'
     | Done o => match proj o with Some r => ystep' y = r | None => True end
@@ -532,9 +627,62 @@ Section Sim.
     destruct (Z.ltb_spec 1024 (len (y_s y) - dl + al)); [lia|]. reflexivity.
   Qed.
 
+  Lemma call_sim opc wn pc stk0 ys mem w fee' gas' maxh rd cgt' bad ym yi addr ioff isz roff rsz r :
+    0 <= pc -> 0 <= yi -> 0 <= w -> 32 * w <= MAXMEM ->
+    mem_rel (expanded mem (32 * w)) ym (Z.max yi w) ->
+    (let (sz, ovf) := call_mem_size roff rsz ioff isz in ovf = false /\ w = to_word_size sz) ->
+    0 <= addr -> 0 <= ioff -> 0 <= isz -> 0 <= roff -> 0 <= rsz -> Forall word r -> rd_ok rd ->
+    ystep' {| y_pc := pc; y_s := ys; y_m := ym; y_i := yi; y_o := rd |} =
+      ycall addr ioff isz roff rsz r {| y_pc := pc; y_s := ys; y_m := ym; y_i := yi; y_o := rd |} wn ->
+    Qsim {| y_pc := pc; y_s := ys; y_m := ym; y_i := yi; y_o := rd |}
+      (call_identity opc {| s_pc := pc; s_stk := stk0; s_mem := expanded mem (32 * w); s_fee := fee'; s_gas := gas';
+                            s_maxh := maxh; s_rd := rd; s_cgt := cgt'; s_bad := bad |} addr ioff isz roff rsz r).
+  Proof.
+    intros Hpc0 Hyi Hw0 Hwb Hm' Hms Ha Hio His Hro0 Hrs Hr Hrok Hy.
+    destruct (call_mem_size roff rsz ioff isz) as [sz ovf] eqn:Ec. destruct Hms as [-> Hwv].
+    destruct (call_mem_facts roff rsz ioff isz sz w yi Hro0 Hrs Hio His Hyi Ec Hwv Hwb) as [Hrl [Hil [Hrp [Hip HMx]]]].
+    pose proof (zlen_expanded_ge _ _ _ _ Hm') as Hge.
+    set (mem3 := expanded mem (32 * w)) in *.
+    unfold call_identity. cbv zeta. cbn [s_pc s_mem s_cgt s_gas].
+    unfold ycall in Hy. cbv zeta in Hy. cbn [y_m y_pc y_i] in Hy.
+    destruct (addr mod 2 ^ 160 =? 4); cbn [negb] in *; [|right; exact I].
+    assert (Eargs : (if isz mod U64 =? 0 then [] else slice mem3 (ioff mod U64) (isz mod U64)) = mread ym ioff isz).
+    { rewrite (Z.mod_small isz) by lia. destruct (Z.eqb_spec isz 0) as [->|Hn]; [reflexivity|].
+      destruct Hip as [Q1 Q2]; [lia|]. rewrite (Z.mod_small ioff) by lia. apply (read_rel _ _ _ ioff isz Hm'); lia. }
+    rewrite Eargs.
+    match goal with |- context [if ?b then Next _ else _] => destruct b end.
+    { left. right. eexists. split; [reflexivity|]. cbn [s_bad upd_call]. apply orb_true_r. }
+    match goal with |- context [negb (zlist_eq ?a ?b)] => destruct (zlist_eq a b) eqn:Eq end; cbn [negb].
+    2:{ left. right. eexists. split; [reflexivity|]. cbn [s_bad upd_call]. apply orb_true_r. }
+    apply zlist_eq_true in Eq.
+    right. rewrite wpush_word by (unfold word; split; [lia|reflexivity]).
+    eexists. split; [exact Hy|].
+    assert (Hbytes : forall x, 0 <= ym x < 256) by (apply (mem_rel_bytes _ _ _ Hm')).
+    assert (Hmem : mem_rel (mem_set mem3 (roff mod U64) (rsz mod U64) (mread ym ioff isz))
+                           (mwrite ym roff (Z.min rsz isz) (fun k => ym (ioff + k))) (Z.max yi w)).
+    { rewrite (Z.mod_small rsz) by lia.
+      destruct (Z.eqb_spec rsz 0) as [->|Hn].
+      { unfold mem_set. cbn [Z.eqb]. eapply mem_rel_ext; [exact Hm'|]. intros x. rewrite Z.min_l by lia. apply mwrite_empty. }
+      destruct Hrp as [Q1 Q2]; [lia|]. rewrite (Z.mod_small roff) by lia.
+      rewrite mem_set_short by lia. rewrite zlen_mread by lia. rewrite firstn_mread by lia.
+      destruct (Z.eqb_spec (Z.min rsz isz) 0) as [E0|E0].
+      { rewrite E0. unfold mem_set. cbn [Z.eqb]. eapply mem_rel_ext; [exact Hm'|]. intros x. apply mwrite_empty. }
+      apply write_rel; try assumption; try lia.
+      - apply zlen_mread. lia.
+      - intros k Hkk. rewrite <- cnth_in by (rewrite zlen_mread; lia). rewrite cnth_mread by lia. reflexivity.
+      - intros k Hkk. apply Hbytes. }
+    finR; try reflexivity; try lia.
+    - constructor; [unfold word; split; [lia|reflexivity]|assumption].
+    - rewrite HMx. exact Hmem.
+    - split; [exact Eq|]. split.
+      + rewrite zlen_mread by lia. destruct (Z.eq_dec isz 0); [unfold MAXMEM; lia|]. destruct Hip; lia.
+      + intros x. destruct (Z.lt_ge_cases x 0); [rewrite cnth_out by (left; assumption); lia|].
+        destruct (Z.lt_ge_cases x isz); [rewrite cnth_mread by lia; apply Hbytes|rewrite cnth_out by (right; rewrite zlen_mread by lia; assumption); lia].
+  Qed.
+
   Lemma step_sim st y : R st y -> Qsim y (istep st).
   Proof.
-    intros [Hpc [Hpc0 [Hs [Hw Hm]]]].
+    intros [Hpc [Hpc0 [Hs [Hw [Hm [Hrdeq Hro]]]]]].
     assert (Hop : cur_op c (y_pc y) = cnth c (s_pc st)) by (unfold cur_op; rewrite byte_at_cnth, Hpc; reflexivity).
     pose proof (table_ok_row defined P (cnth c (s_pc st)) Htab (Hcb _)) as Hrow.
     unfold row_ok in Hrow. cbv zeta in Hrow. apply andb_true_iff in Hrow as [Hrd Hrda].
@@ -543,20 +691,20 @@ Section Sim.
     apply step_inv.
     - (* invalid *) intros Hf. right. cbn [proj]. unfold ystep. cbv zeta. rewrite Hop, <- Hrd, Hf. reflexivity.
     - (* underflow *) intros Ht Hu. rewrite Ht in Hrd. rewrite <- Hrd in Hrda. cbn [negb orb] in Hrda.
-      unfold Qsim, ystep. cbv zeta. rewrite Hop, <- Hrd. cbn [negb].
-      destruct (delta_alpha (cnth c (s_pc st))) as [[dl al]|]; [|left; eexists; reflexivity].
+      unfold Qsim, Excl, ystep. cbv zeta. rewrite Hop, <- Hrd. cbn [negb].
+      destruct (delta_alpha (cnth c (s_pc st))) as [[dl al]|]; [|left; left; eexists; reflexivity].
       right. cbn [proj]. apply andb_true_iff in Hrda as [A B]. apply Z.eqb_eq in A, B.
       rewrite Hlen. destruct (Z.ltb_spec (zlen (s_stk st)) dl); [reflexivity|lia].
     - (* overflow *) intros Ht Hu. rewrite Ht in Hrd. rewrite <- Hrd in Hrda. cbn [negb orb] in Hrda.
-      unfold Qsim, ystep. cbv zeta. rewrite Hop, <- Hrd. cbn [negb].
-      destruct (delta_alpha (cnth c (s_pc st))) as [[dl al]|]; [|left; eexists; reflexivity].
+      unfold Qsim, Excl, ystep. cbv zeta. rewrite Hop, <- Hrd. cbn [negb].
+      destruct (delta_alpha (cnth c (s_pc st))) as [[dl al]|]; [|left; left; eexists; reflexivity].
       right. cbn [proj]. apply andb_true_iff in Hrda as [A B]. apply Z.eqb_eq in A, B.
       rewrite Hlen. destruct (Z.ltb_spec (zlen (s_stk st)) dl); [reflexivity|].
       destruct (Z.ltb_spec 1024 (zlen (s_stk st) - dl + al)); [reflexivity|lia].
     - right. exact I.
     - right. exact I.
     - intros _. right. exact I.
-    - intros w fee' gas' Ht Hh Hk Hw0 Hwb Hms.
+    - intros w fee' gas' cgt' Ht Hh Hk Hw0 Hwb Hms.
       rewrite Ht in Hrd. rewrite <- Hrd in Hrda. cbn [negb orb] in Hrda. symmetry in Hrd.
       rewrite <- Hop in *.
       set (opc := cur_op c (y_pc y)) in *.
@@ -567,8 +715,8 @@ Section Sim.
         split; [|lia]. apply (ystep_sem y dl al); try assumption; rewrite Hlen; lia. }
       clear Hrda.
       pose proof (expand_rel _ _ _ w Hm Hw0 Hwb) as Hm'.
-      destruct st as [pc stk mem fee gas maxh]. destruct y as [ypc ys ym yi].
-      cbn [s_pc s_stk s_mem s_fee s_gas s_maxh y_pc y_s y_m y_i] in *. subst ypc ys.
+      destruct st as [pc stk mem fee gas maxh rd cgt bad]. destruct y as [ypc ys ym yi yo].
+      cbn [s_pc s_stk s_mem s_fee s_gas s_maxh s_rd s_cgt s_bad y_pc y_s y_m y_i y_o] in *. subst ypc ys yo.
       assert (Hyi : 0 <= yi) by (destruct Hm as [A _]; pose proof (zlen_nonneg mem); lia).
       clearbody opc.
       assert (Hnomem : w = 0 -> mem_rel mem ym yi).
@@ -583,8 +731,9 @@ Section Sim.
         right. cbn [exec s_stk s_pc s_mem]. rewrite op_correct by (assumption || apply word_0).
         rewrite wpush_word by (apply spec_op_word; assumption || apply word_0).
         eexists. split; [rewrite Hy; unfold sem; rewrite Hd; reflexivity|].
-        unfold R. cbn [s_pc s_stk s_mem y_pc y_s y_m y_i upd nth skipn].
-        repeat split; try lia; [constructor; [apply spec_op_word; assumption || apply word_0|assumption]|apply Hnomem; reflexivity..].
+        finR; try reflexivity; try lia.
+        * constructor; [apply spec_op_word; assumption || apply word_0|assumption].
+        * apply Hnomem; reflexivity.
       + (* KArith3 *)
         destruct (Hsem 3 1) as [Hy [Hlo Hhi]]; [unfold delta_alpha; rewrite Hd; reflexivity|].
         destruct stk as [|a [|b [|d r]]]; try (zl; lia). inv_words. try subst w.
@@ -736,7 +885,7 @@ Section Sim.
         constructor; assumption.
       + (* KGas *)
         rewrite Hd in *. destruct (Hsem 0 1) as [Hy _]; [reflexivity|].
-        left. exists 90. rewrite Hy. reflexivity.
+        left. left. exists 90. rewrite Hy. reflexivity.
       + (* KJumpdest *)
         rewrite Hd in *. destruct (Hsem 0 0) as [Hy [Hlo Hhi]]; [reflexivity|]. try subst w.
         right. cbn [exec s_stk s_pc s_mem].
@@ -834,47 +983,122 @@ Section Sim.
         constructor; [apply Henv|assumption].
       + (* KRetDataSize *)
         rewrite Hd in *. destruct (Hsem 0 1) as [Hy [Hlo Hhi]]; [reflexivity|]. try subst w.
-        right. cbn [exec s_stk s_pc s_mem]. rewrite wpush_word by apply word_0.
+        assert (Wv : word (zlen rd)).
+        { destruct Hro as [B _]. apply word_small. pose proof (zlen_nonneg rd). unfold MAXMEM in B. change (2 ^ 64) with 18446744073709551616. lia. }
+        right. cbn [exec s_stk s_pc s_mem s_rd]. rewrite wpush_word by exact Wv.
         eexists. split; [rewrite Hy; reflexivity|]. finR; try reflexivity; try lia; try assumption.
-        constructor; [apply word_0|assumption].
+        constructor; assumption.
       + (* KRetDataCopy *)
         rewrite Hd in *. destruct (Hsem 3 0) as [Hy [Hlo Hhi]]; [reflexivity|].
         destruct stk as [|mo [|dof [|l r]]]; try (zl; lia). inv_words. pn.
         change (znth (mo :: dof :: l :: r) 0 0) with mo in Hms. change (znth (mo :: dof :: l :: r) 2 0) with l in Hms.
         destruct (calc_mem_size mo l) as [sz ovf] eqn:Ec. destruct Hms as [-> Hwv].
         destruct (calc_facts mo l sz w ltac:(lia) ltac:(lia) Ec Hwv Hwb) as [Hl [Hl0 Hlp]].
-        right. cbn [exec s_stk s_pc s_mem].
-        assert (Hsm : sem spec_op hash E c input 62 {| y_pc := pc; y_s := mo :: dof :: l :: r; y_m := ym; y_i := yi |} =
-                      if 0 <? dof + l then YExc else YNext (mkY (pc + 1) r ym (Mx yi mo l))) by reflexivity.
+        pose proof (zlen_expanded_ge _ _ _ _ Hm') as Hge.
+        destruct Hro as [Hrl Hrb]. pose proof (zlen_nonneg rd) as Hrn.
+        right. cbn [exec s_stk s_pc s_mem s_rd].
+        assert (Hsm : sem spec_op hash E c input 62 {| y_pc := pc; y_s := mo :: dof :: l :: r; y_m := ym; y_i := yi; y_o := rd |} =
+                      if len rd <? dof + l then YExc
+                      else YNext (mkY (pc + 1) r (mwrite ym mo l (fun k => byte_at rd (dof + k))) (Mx yi mo l) rd)) by reflexivity.
+        change (len rd) with (zlen rd) in Hsm.
         destruct (Z.ltb_spec dof U64) as [Hdu|Hdu]; cbn [negb].
-        2:{ cbn [proj]. rewrite Hy, Hsm. destruct (Z.ltb_spec 0 (dof + l)); [reflexivity|change U64 with 18446744073709551616 in *; lia]. }
+        2:{ cbn [proj]. rewrite Hy, Hsm. destruct (Z.ltb_spec (zlen rd) (dof + l)); [reflexivity|unfold MAXMEM in Hrl; change U64 with 18446744073709551616 in *; lia]. }
         assert (Esum : (dof + l) mod W = dof + l).
         { apply Z.mod_small. change U64 with 18446744073709551616 in *. change W with 115792089237316195423570985008687907853269984665640564039457584007913129639936. lia. }
         rewrite Esum.
         destruct (Z.ltb_spec (dof + l) U64) as [He|He]; cbn [negb orb].
-        2:{ cbn [proj]. rewrite Hy, Hsm. destruct (Z.ltb_spec 0 (dof + l)); [reflexivity|change U64 with 18446744073709551616 in *; lia]. }
-        destruct (Z.ltb_spec 0 (dof + l)) as [Hp|Hp].
-        { cbn [proj]. rewrite Hy, Hsm. destruct (Z.ltb_spec 0 (dof + l)); [reflexivity|lia]. }
-        assert (l = 0) by lia. subst l. rewrite Hl0 in * by reflexivity.
-        eexists. split; [rewrite Hy, Hsm; destruct (Z.ltb_spec 0 (dof + 0)); [lia|reflexivity]|].
-        finR; cbn [y_pc y_s y_m y_i]; try reflexivity; try lia; try assumption.
+        2:{ cbn [proj]. rewrite Hy, Hsm. destruct (Z.ltb_spec (zlen rd) (dof + l)); [reflexivity|unfold MAXMEM in Hrl; change U64 with 18446744073709551616 in *; lia]. }
+        destruct (Z.ltb_spec (zlen rd) (dof + l)) as [Hp|Hp].
+        { cbn [proj]. rewrite Hy, Hsm. destruct (Z.ltb_spec (zlen rd) (dof + l)); [reflexivity|lia]. }
+        eexists. split; [rewrite Hy, Hsm; destruct (Z.ltb_spec (zlen rd) (dof + l)); [lia|reflexivity]|].
+        finR; cbn [y_pc y_s y_m y_i y_o]; try reflexivity; try lia; try assumption; try (split; [reflexivity|split; assumption]).
+        rewrite (Mx_eq yi mo l w) by (try assumption; try lia; intros Q0; apply Hlp; exact Q0).
+        rewrite (Z.mod_small l) by lia. replace (dof + l - dof) with l by lia.
+        destruct (Z.eqb_spec l 0) as [->|Hn].
+        * unfold mem_set. cbn [Z.eqb]. eapply mem_rel_ext; [exact Hm'|]. intros x. apply mwrite_empty.
+        * destruct Hlp as [Q1 [Q2 _]]; [lia|]. rewrite (Z.mod_small mo) by lia.
+          rewrite (slice_mread rd dof l) by lia.
+          apply write_rel; try assumption; try lia.
+          -- apply zlen_mread. lia.
+          -- intros k Hkk. rewrite <- cnth_in by (rewrite zlen_mread; lia). rewrite cnth_mread by lia. reflexivity.
+          -- intros k Hkk. change (byte_at rd) with (cnth rd). apply Hrb.
+      + (* KCall *)
+        rewrite Hd in *. destruct (Hsem 7 1) as [Hy [Hlo Hhi]]; [reflexivity|].
+        destruct stk as [|g0 [|addr [|v [|ioff [|isz [|roff [|rsz r]]]]]]]; try (zl; lia). inv_words. pn.
+        change (znth (g0 :: addr :: v :: ioff :: isz :: roff :: rsz :: r) 5 0) with roff in Hms.
+        change (znth (g0 :: addr :: v :: ioff :: isz :: roff :: rsz :: r) 6 0) with rsz in Hms.
+        change (znth (g0 :: addr :: v :: ioff :: isz :: roff :: rsz :: r) 3 0) with ioff in Hms.
+        change (znth (g0 :: addr :: v :: ioff :: isz :: roff :: rsz :: r) 4 0) with isz in Hms.
+        cbn [exec s_stk].
+        assert (Hsm : sem spec_op hash E c input 241 {| y_pc := pc; y_s := g0 :: addr :: v :: ioff :: isz :: roff :: rsz :: r; y_m := ym; y_i := yi; y_o := rd |} =
+                      if v =? 0 then ycall addr ioff isz roff rsz r {| y_pc := pc; y_s := g0 :: addr :: v :: ioff :: isz :: roff :: rsz :: r; y_m := ym; y_i := yi; y_o := rd |} 241
+                      else YOutside 241) by reflexivity.
+        destruct (v =? 0); [|right; exact I].
+        rewrite Hsm in Hy.
+        eapply call_sim; try eassumption; try lia.
+      + (* KStaticCall *)
+        rewrite Hd in *. destruct (Hsem 6 1) as [Hy [Hlo Hhi]]; [reflexivity|].
+        destruct stk as [|g0 [|addr [|ioff [|isz [|roff [|rsz r]]]]]]; try (zl; lia). inv_words. pn.
+        change (znth (g0 :: addr :: ioff :: isz :: roff :: rsz :: r) 4 0) with roff in Hms.
+        change (znth (g0 :: addr :: ioff :: isz :: roff :: rsz :: r) 5 0) with rsz in Hms.
+        change (znth (g0 :: addr :: ioff :: isz :: roff :: rsz :: r) 2 0) with ioff in Hms.
+        change (znth (g0 :: addr :: ioff :: isz :: roff :: rsz :: r) 3 0) with isz in Hms.
+        cbn [exec s_stk].
+        assert (Hsm : sem spec_op hash E c input 250 {| y_pc := pc; y_s := g0 :: addr :: ioff :: isz :: roff :: rsz :: r; y_m := ym; y_i := yi; y_o := rd |} =
+                      ycall addr ioff isz roff rsz r {| y_pc := pc; y_s := g0 :: addr :: ioff :: isz :: roff :: rsz :: r; y_m := ym; y_i := yi; y_o := rd |} 250) by reflexivity.
+        rewrite Hsm in Hy.
+        eapply call_sim; try eassumption; try lia.
       + (* KOther *)
         exfalso. apply Hk. reflexivity.
   Qed.
 
   Notation yrun' := (yrun spec_op defined hash E c input).
   Notation irun := (run impl_op valid_jumpdest hash E P c input).
+  Notation iflag := (run_flag impl_op valid_jumpdest hash E P c input).
+
+  (* the ghost monitor is sticky *)
+  Lemma exec_bad k opc st st' :
+    exec impl_op valid_jumpdest hash E c input k opc st = Next st' -> s_bad st = true -> s_bad st' = true.
+  Proof.
+    destruct k; cbn [exec]; unfold call_identity;
+      try (destruct (s_stk st) as [|g0 [|a0 [|v0 [|i1 [|i2 [|i3 [|i4 r0]]]]]]]);
+      repeat match goal with |- context [if ?b then _ else _] => destruct b end;
+      intros HE Hb; try discriminate; apply Next_inj in HE; rewrite <- HE; cbn [s_bad upd upd_call];
+      rewrite ?Hb; reflexivity.
+  Qed.
+
+  Lemma step_bad st st' : istep st = Next st' -> s_bad st = true -> s_bad st' = true.
+  Proof.
+    intros H Hb. unfold step in H. cbv zeta in H.
+    set (k := decode _) in H.
+    repeat match type of H with
+           | context [match ?x with _ => _ end] =>
+               lazymatch x with
+               | exec _ _ _ _ _ _ _ _ _ => fail
+               | context [match _ with _ => _ end] => fail
+               | _ => destruct x
+               end
+           end; try discriminate;
+      (eapply exec_bad; [exact H|cbn [s_bad]; exact Hb]).
+  Qed.
+
+  Lemma flag_sticky fuel : forall st, s_bad st = true -> iflag fuel st = true.
+  Proof.
+    induction fuel as [|k IH]; intros st Hb; [exact Hb|].
+    cbn [run_flag]. destruct (istep st) eqn:Es; [|exact Hb]. apply IH. eapply step_bad; eassumption.
+  Qed.
 
   (* whole runs: by induction on the number of iterations *)
-  Lemma run_sim fuel : forall st y, R st y ->
+  Lemma run_sim fuel : forall st y, R st y -> iflag fuel st = false ->
     (exists w, yrun' fuel y = YOutside w) \/
     match proj (fst (irun fuel st)) with Some r => yrun' fuel y = r | None => True end.
   Proof.
-    induction fuel as [|k IH]; intros st y HR; [right; exact I|].
-    cbn [run yrun]. destruct (step_sim st y HR) as [[w Hw]|H].
+    induction fuel as [|k IH]; intros st y HR Hf; [right; exact I|].
+    cbn [run yrun run_flag] in *. destruct (step_sim st y HR) as [[[w Hw]|[st' [Hst Hb]]]|H].
     - left. exists w. rewrite Hw. reflexivity.
+    - exfalso. rewrite Hst in Hf. rewrite (flag_sticky k st' Hb) in Hf. discriminate.
     - destruct (istep st) as [st'|o].
-      + destruct H as [y' [Hy HR']]. rewrite Hy. apply IH. exact HR'.
+      + destruct H as [y' [Hy HR']]. rewrite Hy. apply IH; assumption.
       + right. cbn [fst]. destruct o as [g|d g|d g|e| |u]; cbn [proj] in *; try exact I;
           try (rewrite H; reflexivity).
         destruct e; cbn [proj] in *; try exact I; rewrite H; reflexivity.
@@ -883,16 +1107,19 @@ Section Sim.
   Lemma R_init gas : R (init gas) y0.
   Proof.
     assert (Z0 : forall x, cnth [] x = 0) by (intros x; unfold cnth; destruct ((0 <=? x) && (x <? clen [])); [destruct (Z.to_nat x)|]; reflexivity).
-    unfold R, init, y0, mem_rel. cbn [s_pc s_stk s_mem y_pc y_s y_m y_i].
+    unfold R, init, y0, mem_rel, rd_ok. cbn [s_pc s_stk s_mem s_rd y_pc y_s y_m y_i y_o].
     split; [reflexivity|]. split; [lia|]. split; [reflexivity|]. split; [constructor|].
-    split; [reflexivity|]. split; [unfold MAXMEM, zlen; cbn; lia|].
-    split; intros x; rewrite Z0; [lia|reflexivity].
+    split.
+    - split; [reflexivity|]. split; [unfold MAXMEM, zlen; cbn; lia|].
+      split; intros x; rewrite Z0; [lia|reflexivity].
+    - split; [reflexivity|]. split; [unfold MAXMEM, zlen; cbn; lia|]. intros x. rewrite Z0. lia.
   Qed.
 
   Theorem impl_refines_yp fuel gas :
+    iflag fuel (init gas) = false ->
     (exists w, yrun' fuel y0 = YOutside w) \/
     match proj (fst (irun fuel (init gas))) with Some r => yrun' fuel y0 = r | None => True end.
-  Proof. apply run_sim. apply R_init. Qed.
+  Proof. intros Hf. apply run_sim; [apply R_init|exact Hf]. Qed.
 End Sim.
 
 (* ---- the Yellow-Paper machine only looks at the values of the word operations ---------------------------- *)
